@@ -39,6 +39,8 @@ GRAMMARS = [
     ("<start>", {"<start>": ["<A>"], "<A>": ["(<start>)", "x"]}),
     # 9 epsilon-only and empty-string language corner
     ("<start>", {"<start>": ["<o><o>"], "<o>": ["", "a<o>"]}),
+    # 10 several start alternatives, two of them unit alternatives
+    ("<start>", {"<start>": ["<word>", "<number>", "<word>=<number>"], "<word>": ["a", "aa"], "<number>": ["1", "12"]}),
 ]
 GI = int(os.environ.get("VERIF_G", "0"))
 N = int(os.environ.get("VERIF_N", "3"))
@@ -132,6 +134,33 @@ def _solver_parse_ok(ix) -> bool:
     except SyntaxError:
         return not member
     return member and t.value == ENTRY and vlib.valid_tree(G, t, allow_open=False) and vlib.tree_string(t) == s
+
+
+def _solver_parse_every_nonterminal_ok(ix) -> bool:
+    """ISLaSolver.parse(inp, nonterminal=N) for EVERY nonterminal N of the grammar"""
+    s = "".join(ALPHA[i] for i in ix)
+    for nt in G:
+        member = derives(nt, s)
+        try:
+            t = SOLVER.parse(s, nonterminal=nt, skip_check=True, silent=True)
+        except SyntaxError:
+            if member:
+                raise AssertionError("parse(%r, nonterminal=%s) raised SyntaxError although the string is in L(%s)" % (s, nt, nt))
+            continue
+        if not member:
+            raise AssertionError("parse(%r, nonterminal=%s) returned %r although the string is not in L(%s)" % (s, nt, str(t), nt))
+        if t.value != nt or not vlib.valid_tree(G, t, allow_open=False) or vlib.tree_string(t) != s:
+            raise AssertionError("parse(%r, nonterminal=%s) returned a tree rooted at %s spelling %r" % (s, nt, t.value, str(t)))
+    return True
+
+
+def h_solver_parse_nt(idx: List[int]) -> bool:
+    """
+    pre: len(idx) <= N
+    pre: _ok(idx)
+    post: _
+    """
+    return vlib.untraced(_solver_parse_every_nonterminal_ok, [int(i) for i in vlib.realize(idx)])
 
 
 def h_parse(idx: List[int]) -> bool:
